@@ -59,25 +59,44 @@ Definition send_initially (s : state) (w : wire) : state * list wire :=
     let bl := if has_backlog s (w_remote w) then s_backlog s else s_backlog s ++ [(w_remote w, [])] in
     (set_backlog (set_active s (s_active s ++ [(w_remote w, w_mid w)])) bl, [w])
   else (s, [w]).
+(* self._backlogs[remote].append(...) / self._backlogs[remote] = rest: _backlogs is a dict, the (one) entry of the key *)
+Fixpoint backlog_append (remote : Z) (w : wire) (l : list (Z * list wire)) : list (Z * list wire) :=
+  match l with
+  | [] => []
+  | (r, b) :: rest => if r =? remote then (r, b ++ [w]) :: rest else (r, b) :: backlog_append remote w rest
+  end.
+Fixpoint backlog_set (remote : Z) (b' : list wire) (l : list (Z * list wire)) : list (Z * list wire) :=
+  match l with
+  | [] => []
+  | (r, b) :: rest => if r =? remote then (r, b') :: rest else (r, b) :: backlog_set remote b' rest
+  end.
+Fixpoint backlog_del (remote : Z) (l : list (Z * list wire)) : list (Z * list wire) :=
+  match l with
+  | [] => []
+  | (r, b) :: rest => if r =? remote then rest else (r, b) :: backlog_del remote rest
+  end.
 Definition append_backlog (s : state) (remote : Z) (w : wire) : state :=
-  set_backlog s (map (fun x => if fst x =? remote then (fst x, snd x ++ [w]) else x) (s_backlog s)).
+  set_backlog s (backlog_append remote w (s_backlog s)).
 (* MessageManager.send_message for a response to request r  (messagemanager.py:428-521) *)
 Definition send_message (s : state) (r : request) (m : msg) : state * list wire :=
   let k := key_of r in
+  let plain (_ : unit) :=                                            (* type from the request, own message id, NSTART backlog *)
+        let t := if r_con r then T_CON else T_NON in                 (* reliability None: NON iff the request was NON *)
+        let mid := s_mid s in
+        let s1 := set_mid s (Z.land 65535 (1 + mid)) in              (* _next_message_id *)
+        let w := mk_wire r t mid m in
+        if (t =? T_CON) && has_backlog s1 (r_remote r) then (append_backlog s1 (r_remote r) w, [])
+        else send_initially s1 w in
+  if negb (is_response (code_of m)) then plain tt                    (* `if message.code.is_response():` skipped — FINDING: the bogus
+                                                                        message goes out with the request's token, no piggy-backing, no suppression *)
+  else
   match lookup_piggy k (s_piggy s) with
   | Some (mid, _) =>
       let s1 := set_piggy s (remove_piggy k (s_piggy s)) in       (* pop, handle.cancel() *)
       if suppressed m then send_initially s1 (empty_ack (r_remote r) mid)
       else send_initially s1 (mk_wire r T_ACK mid m)
   | None =>
-      if suppressed m then (s, [])
-      else
-        let t := if r_con r then T_CON else T_NON in                 (* reliability None: NON iff the request was NON *)
-        let mid := s_mid s in
-        let s1 := set_mid s (Z.land 65535 (1 + mid)) in              (* _next_message_id *)
-        let w := mk_wire r t mid m in
-        if (t =? T_CON) && has_backlog s1 (r_remote r) then (append_backlog s1 (r_remote r) w, [])
-        else send_initially s1 w
+      if suppressed m then (s, []) else plain tt
   end.
 
 (* MessageManager._continue_backlog  (messagemanager.py:294-314); only CONs are ever backlogged *)
@@ -87,9 +106,9 @@ Definition continue_backlog (s : state) (remote : Z) : state * list wire :=
   if has_active s remote then (s, [])
   else match find_backlog remote (s_backlog s) with
        | None => (s, [])                                   (* AssertionError in the code; unreachable *)
-       | Some [] => (set_backlog s (filter (fun x => negb (fst x =? remote)) (s_backlog s)), [])
+       | Some [] => (set_backlog s (backlog_del remote (s_backlog s)), [])
        | Some (w :: rest) =>
-           let s1 := set_backlog s (map (fun x => if fst x =? remote then (fst x, rest) else x) (s_backlog s)) in
+           let s1 := set_backlog s (backlog_set remote rest (s_backlog s)) in
            send_initially s1 w
        end.
 (* an empty ACK for the (only) active exchange with [remote] arrives: _remove_exchange (messagemanager.py:274-292) *)
@@ -221,5 +240,10 @@ Fixpoint run_sends (srv : option site) (s : state) (evs : list sevent) : list (Z
   | [] => []
   | ev :: rest => step_sends srv s ev ++ run_sends srv (fst (step srv s ev)) rest
   end.
+(* the datagrams of a run, and among them the (non-empty) ones that answer request [id] *)
+Definition wires (os : list step_out) : list wire := flat_map (fun o => fst (fst o)) os.
+Definition is_answer (id : Z) (w : wire) : bool := (w_rid w =? id) && negb (w_code w =? EMPTY).
+Definition answers (id : Z) (ws : list wire) : list wire := filter (is_answer id) ws.
+Definition sends_for (id : Z) (l : list (Z * msg * bool)) : list (Z * msg * bool) := filter (fun x => fst (fst x) =? id) l.
 Definition finals_for (id : Z) (l : list (Z * msg * bool)) : list msg :=
   flat_map (fun x => let '(i, m, last) := x in if (i =? id) && last then [m] else []) l.
